@@ -404,7 +404,7 @@ func reorgProperty(rt *rapid.T, ev *evid.Rec, o machineOpts, prop string) {
 		if v == "" {
 			break
 		}
-		if round == 3 {
+		if round == healRounds {
 			fail("%s (after %d further blocks)", v, round)
 		}
 		m.logf("not canonical yet (%s): the chain grows by one block", v)
